@@ -625,6 +625,7 @@ func TestVerifC11Child(t *testing.T) {
 			{"rotate-larger", []int{1, 2, 3}, []int{0}, []int{1}, 3},
 			{"rotate-all-equal-length", []int{2, 3}, []int{0, 1}, nil, 2},
 			{"revoke-everything", []int{}, []int{0, 1}, nil, -1}, // the empty allow-list: nobody is accepted any more
+			{"update-with-a-repeated-key", []int{0, 0}, []int{1}, []int{0}, -1}, // the list is what the update says: key 1 is off it
 			{"revoke-the-first-of-the-list", []int{1}, []int{0}, []int{1}, -1}, // passed as list[1:] of the list the server was created with
 		} {
 			rc := rc
